@@ -37,6 +37,16 @@ def canon(fn, n, inline=True, depth=0, keep=(), subst=None):
             if subst and r['n'] in subst:
                 return subst[r['n']]
             return r['n']
+        if r['k'] in ('Local', 'Parm') and getattr(fn, 'enclosing', None) is not None and depth <= 6 and r['n'] not in keep:
+            # a variable captured by a lambda: what it stands for is decided in the function the lambda is written in
+            enc = fn.enclosing
+            own = _own_names(fn)
+            if r['n'] not in own and getattr(enc, 'frozen_locals', None) is not None and r['n'] not in enc.frozen_locals:
+                ds = [x for x in enc.all_nodes() if x['k'] == 'VarDecl' and x.get('name') == r['n']]
+                if len(ds) == 1:
+                    d = single_def(enc, ds[0]['id'])
+                    if d is not None:
+                        return canon(enc, d, inline, depth + 1, keep, subst)
         if r['k'] == 'Local':
             fl = getattr(fn, 'frozen_locals', None)
             if not inline and fl is not None and r['n'] not in fl and r['n'] not in keep and depth <= 6:
@@ -115,6 +125,16 @@ def canon(fn, n, inline=True, depth=0, keep=(), subst=None):
 
 
 _SD = {}
+
+
+_OWN = {}
+
+
+def _own_names(fn):
+    o = _OWN.get(fn.id)
+    if o is None:
+        o = _OWN[fn.id] = {x.get('name') for x in fn.all_nodes() if x['k'] == 'VarDecl'} | {q.get('name') for q in fn.params}
+    return o
 
 
 def single_def(fn, vid):
